@@ -379,6 +379,68 @@ static void NM(bhistory)(struct enc *e, struct dec *s, int npass, int *pk, char 
   printf("%s\n", outbuf);
 }
 
+/* K lines: jpeg_crop_scanline called a SECOND time (libjpeg.txt: "it can call jpeg*_crop_scanline() again with new
+   values"): buf = 0 both calls before the first read; buf = 1 buffered-image mode, one call before each of two output
+   passes on the complete image.  Reports what each call returned (xoffset width output_width | err) and, for each pass
+   that delivers rows, which column offset of the full decode f ALL delivered rows equal (at = -1: none; searched over every
+   offset), whether that is the region the call reported (rep) and, for the second call, the first call's region (first). */
+static int NM(kmatch)(struct jpeg_decompress_struct *d, struct full *f, unsigned char *rows)
+{
+  int H = d->output_height, ow = d->output_width, cand, y;
+  for (cand = 0; cand + ow <= f->W; cand++) {
+    int ok = 1;
+    for (y = 0; y < H && ok; y++)
+      if (memcmp(rows + (size_t)y * ow * f->pxb, f->pix + (size_t)f->rowb * y + (size_t)cand * f->pxb, (size_t)ow * f->pxb)) ok = 0;
+    if (ok) return cand;
+  }
+  return -1;
+}
+static void NM(khistory)(struct enc *e, struct dec *s, struct full *f, int buf, long x1, long w1, long x2, long w2)
+{
+  struct jpeg_decompress_struct d; struct jpeg_error_mgr em;
+  char *volatile o = outbuf; unsigned char *volatile rows = NULL;
+  d.err = jpeg_std_error(&em); em.error_exit = my_exit; em.emit_message = my_emit;
+  if (setjmp(jb)) {
+    jpeg_destroy_decompress(&d); free(rows);
+    printf("%s err %d\n", outbuf, last_err); return;
+  }
+  outbuf[0] = 0;
+  jpeg_create_decompress(&d);
+  jpeg_mem_src(&d, e->jpg, e->len);
+  jpeg_read_header(&d, TRUE);
+  NM(configure)(&d, s);
+  d.buffered_image = buf ? TRUE : FALSE;
+  if (buf) { jpeg_start_decompress(&d); while (!jpeg_input_complete(&d)) { int r = jpeg_consume_input(&d); if (r == JPEG_REACHED_EOI || r == JPEG_SUSPENDED) break; } }
+  else NM(start)(&d, s);
+  o += sprintf(o, "k ow=%u oh=%u", d.output_width, d.output_height);
+  rows = (unsigned char *)malloc((size_t)f->rowb * (f->H + 2) + 64);
+  {
+    int pass; long fx = -1;
+    for (pass = 1; pass <= 2; pass++) {
+      JDIMENSION xo = (JDIMENSION)(pass == 1 ? x1 : x2), wo = (JDIMENSION)(pass == 1 ? w1 : w2);
+      o += sprintf(o, " | c%d", pass);
+      JC(&d, &xo, &wo);
+      o += sprintf(o, " %u %u %u", xo, wo, d.output_width);
+      if (pass == 1) fx = (long)xo;
+      if (buf) jpeg_start_output(&d, d.input_scan_number);
+      if (buf || pass == 2) {
+        int at, ow = d.output_width;
+        while (d.output_scanline < d.output_height) {
+          SAMP *rp = (SAMP *)(rows + (size_t)d.output_scanline * ow * f->pxb);
+          if (JR(&d, &rp, 1) != 1) break;
+        }
+        at = NM(kmatch)(&d, f, rows);
+        o += sprintf(o, " at=%d rep=%d", at, at >= 0 && at == (int)xo && ow == (int)wo);
+        if (pass == 2) o += sprintf(o, " first=%d", at >= 0 && at == (int)fx);
+        if (buf) jpeg_finish_output(&d);
+      }
+    }
+  }
+  if (buf) jpeg_finish_decompress(&d); else NM(finish)(&d, s);
+  jpeg_destroy_decompress(&d); free(rows);
+  printf("%s\n", outbuf);
+}
+
 #undef SAMP
 #undef JW
 #undef JR
